@@ -356,7 +356,7 @@ class Walker:
             if len(n.generators) == 1 and isinstance(n.generators[0].target, ast.Name) and not n.generators[0].is_async:
                 gen = n.generators[0]
                 src = T.strip(self.expr(gen.iter))
-                if src[0] == "bag" and len(src[1]) != 1 and all(e[1][0] != "star" for e in src[1]):
+                if src[0] == "bag" and all(e[1][0] != "star" for e in src[1]):
                     nm = gen.target.id
                     out = []
                     for e in src[1]:
